@@ -471,7 +471,12 @@ def _dissolve_records_in(t: ast.AST) -> None:
                 n_store = sum(1 for n in ast.walk(fn) if isinstance(n, ast.Name) and n.id == v and isinstance(n.ctx, ast.Store))
                 loads = [n for n in ast.walk(fn) if isinstance(n, ast.Name) and n.id == v and isinstance(n.ctx, ast.Load)]
                 fl = recs[sts[0].value.func.id]
-                ok = n_store == 1 and all(isinstance(parents.get(id(n)), ast.Attribute) and parents[id(n)].attr in fl and isinstance(parents[id(n)].ctx, ast.Load) for n in loads)
+                def unpacked(n):
+                    p_ = parents.get(id(n))
+                    return isinstance(p_, ast.Assign) and p_.value is n and len(p_.targets) == 1 and isinstance(p_.targets[0], (ast.Tuple, ast.List)) \
+                        and len(p_.targets[0].elts) == len(fl) and not any(isinstance(e_, ast.Starred) for e_ in p_.targets[0].elts)
+                ok = n_store == 1 and all((isinstance(parents.get(id(n)), ast.Attribute) and parents[id(n)].attr in fl and isinstance(parents[id(n)].ctx, ast.Load)) or unpacked(n)
+                                          for n in loads)
                 if not ok:
                     continue
                 vals, fl = fields_of(sts[0].value)
@@ -480,6 +485,9 @@ def _dissolve_records_in(t: ast.AST) -> None:
                 st.value = ast.copy_location(ast.Tuple(elts=vals, ctx=ast.Load()), st.value)
                 for n in loads:
                     a = parents[id(n)]
+                    if isinstance(a, ast.Assign):
+                        a.value = ast.copy_location(ast.Tuple(elts=[ast.Name(id=f"{v}__{f}", ctx=ast.Load()) for f in fl], ctx=ast.Load()), n)
+                        continue
                     a.__class__ = ast.Name
                     a.id = f"{v}__{a.attr}"
                     a.ctx = ast.Load()
@@ -689,8 +697,39 @@ class Program:
         self._attr_busy: Set[Tuple[str, str]] = set()
         # code moved into helpers that did not exist in the pinned tree is analysed where it came from
         from .inline import Inliner
+        self._push_down_pulled_up()
         self.inliner = Inliner(self)
         self.inliner.run()
+
+    def _push_down_pulled_up(self) -> None:
+        """pull-up refactorings: a method the pinned tree defined in class C that C now inherits from a base-class method which did
+        not exist there (the identical bodies of several subclasses merged into a template method on the base, usually with hooks
+        such as `self._bounds()`).  C gets its own copy again - specialised to C, so that the hooks dispatch uniquely - and the
+        rules anchored at C.m read that."""
+        import copy as _copy
+        from .inline import known_functions
+        known = known_functions()
+        for ci in list(self.classes.values()):
+            prefix = ci.qualname + "."
+            for q in [q for q in known if q.startswith(prefix) and "." not in q[len(prefix):]]:
+                name = q[len(prefix):]
+                if name in ci.methods:
+                    continue
+                base_m = None
+                for b in self.mro(ci)[1:]:
+                    if name in b.methods:
+                        base_m = b.methods[name]
+                        break
+                if base_m is None or base_m.qualname in known or self.is_stub(base_m):
+                    continue
+                node = _copy.deepcopy(base_m.node)
+                fi = FuncInfo(name, base_m.module, node, cls=ci, parent=None, decorators=self._decorators(node))
+                fi.pushed_down_from = base_m.qualname
+                ci.methods[name] = fi
+                self.functions[fi.qualname] = fi
+                self._by_node[id(node)] = fi
+                for sub in self._nested_defs(node):
+                    self._index_stmt(base_m.module, sub, None, fi)
 
     # -- loading ----------------------------------------------------------
     def _load(self) -> None:
